@@ -24,7 +24,7 @@ type c18Spec struct {
 	Keep     bool     `json:"keep_super_writable"`
 	MasterDU int      `json:"master_usage"`
 	RepDU    []int    `json:"replica_usage"`
-	RepState []string `json:"replica_state"`    // semisync stopped not_semisync no_report
+	RepState []string `json:"replica_state"`    // semisync stopped not_semisync no_report probe_fails (the daemon runs, its disk probe fails: no usage in the record)
 	StartRO  string   `json:"master_initially"` // writable read_only super_read_only
 	Then     []int    `json:"master_usage_later"`
 	SlowHC   bool     `json:"master_daemon_health_check_every_20s"`         // legal: the hosts' health-check intervals differ (manager 5 s)
@@ -51,6 +51,18 @@ func c18Gen(seed int64, idx int) c18Spec {
 	}
 	sp.ROFails = r.Intn(4) == 0
 	sp.SlowHC = r.Intn(4) == 0
+	if idx%9 == 7 {
+		// a healthy semi-sync replica whose daemon cannot determine its disk usage (the record carries no usage) beside
+		// one that reports critical / grey-zone usage: the first one is no evidence of space
+		sp.N, sp.W, sp.ROFails, sp.SlowHC, sp.MasterDU = 3, 1, false, false, 50
+		sp.RepState = []string{"probe_fails", "semisync"}
+		if (idx/9)%2 == 0 {
+			sp.RepDU, sp.StartRO = []int{50, 97}, "writable"
+		} else {
+			sp.RepDU, sp.StartRO = []int{50, 89}, "read_only"
+		}
+		sp.Then = []int{50, 50}
+	}
 	if idx%9 == 4 {
 		// manager terms: one semi-sync replica with normal usage, the master's usage crossing both thresholds again and
 		// again, every crossing handled by another process than the previous one
@@ -145,6 +157,10 @@ func c18Run(u *Unit) {
 		w.Unlock()
 		for i, v := range sp.RepDU {
 			du(hosts[i+1], v)
+			if sp.RepState[i] == "probe_fails" {
+				_ = os.WriteFile(s.Dir+"/"+hosts[i+1]+".du", []byte("unreadable"), 0o644)
+				sc.Cover("replica-with-failing-disk-probe")
+			}
 		}
 		var mu sync.Mutex
 		its := map[string]*c18Iter{}
